@@ -20,7 +20,8 @@ import os
 from fractions import Fraction
 
 from sa import AnalysisError
-from sa.astutil import dotted, src, stmt_text, params, find_stmts, calls_in, method_name, const
+from sa.pattern import pmatch, pfind
+from sa.astutil import dotted, src, stmt_text, params, find_stmts, calls_in, method_name, const, resolved
 from sa.algebra import Poly, Unsupported
 from rules.c04 import emitted_function
 
@@ -403,12 +404,15 @@ def check_composites(model, rep):
                            statement=f'mutates {base.id}')
     rep.ob('R07.5', 'function:__implementations__', mod.relpath + ':1', True, f'{nstore} in-place stores in function.py inspected: none targets caller-owned data', statement='no-argument-mutation')
     # R07.6: slice normalisation follows Python's slice semantics
-    want_start = '0ifs.startisNoneelses.startifs.start>=0elses.start+n'
-    want_stop = 'nifs.stopisNoneelses.stopifs.stop>=0elses.stop+n'
     for key in ('function:_takeslice', 'evaluable:_takeslice'):
         f = model.func(key)
+        # matched structurally (sa.pattern): S_ is the slice, N_ the length of the sliced axis, whatever they are called or however they are spelled
+        starts = pfind('0 if S_.start is None else S_.start if S_.start >= 0 else S_.start + N_', f.node)
+        ok = False
+        for _, b in starts:
+            if pfind('N_ if S_.stop is None else S_.stop if S_.stop >= 0 else S_.stop + N_', f.node, b) and pmatch('A_.shape[X_]', resolved(f.node, b['N_'])) is not None:
+                ok = True
         a = {src(s_.targets[0]): src(s_.value).replace(' ', '') for s_ in ast.walk(f.node) if isinstance(s_, ast.Assign) and src(s_.targets[0]) in ('start', 'stop')}
-        ok = a.get('start') == want_start and a.get('stop') == want_stop
         rep.ob('R07.6', f.key, f.where(), ok, 'negative and missing slice bounds are normalised as Python does (None -> 0 / n, negative -> + n, 0 stays 0)' if ok else
                f'{key} normalises slice bounds as start={a.get("start")}, stop={a.get("stop")}: not Python\'s slice semantics (e.g. an explicit stop 0 or start 0)', statement='slice-normalisation')
     # at the function level axis lengths are integers, so out-of-range bounds can and must be clipped as Python/NumPy do:
